@@ -65,7 +65,32 @@ type G struct {
 	undo      func() // reverts a temporary file-system condition set up for this goroutine's current step
 }
 
+// stmtCtl lets the controller cancel only the statement a shell-mode process
+// is executing right now.
+type stmtCtl struct {
+	mu     sync.Mutex
+	cancel func()
+}
+
+func (c *stmtCtl) set(f func()) {
+	c.mu.Lock()
+	c.cancel = f
+	c.mu.Unlock()
+}
+
+func (c *stmtCtl) fire() bool {
+	c.mu.Lock()
+	f := c.cancel
+	c.mu.Unlock()
+	if f != nil {
+		f()
+		return true
+	}
+	return false
+}
+
 type Proc struct {
+	stmt   stmtCtl
 	idx    int
 	spec   *ProcSpec
 	cancel func()
@@ -495,6 +520,14 @@ func (k *Kernel) accept(a *arrival) {
 	// own progress, so that it survives schedule minimisation
 	for i := range k.sc.Cancels {
 		c := &k.sc.Cancels[i]
+		if c.Stmt && c.Proc == g.proc.idx && c.AtYield == g.proc.yields {
+			if g.proc.stmt.fire() {
+				k.logf("cancel statement of p%d at yield %d (%s)", g.proc.idx, g.proc.yields, a.point)
+				k.Stats.fault("cancel-statement")
+				k.Stats.probe("stmtcancel@" + pointClass(a.point))
+			}
+			continue
+		}
 		if c.Proc == g.proc.idx && c.AtYield == g.proc.yields && g.proc.cancel != nil && !g.proc.cancelled {
 			g.proc.cancelled = true
 			k.logf("cancel p%d at yield %d (%s)", g.proc.idx, g.proc.yields, a.point)
